@@ -218,7 +218,10 @@ def check_hist(case):
     try:
         for name, w in hist:
             if name == "reverse":
-                p.reverse()
+                if (len(hist) + K) % 2 and p.count_subpaths() == 1:
+                    p.subpath(0).reverse()       # the same reversal through the view of the (only) sub-path
+                else:
+                    p.reverse()
                 continue
             if name == "scale2":
                 if (len(hist) + K) % 2 and p.count_subpaths() == 1:
